@@ -119,6 +119,42 @@ def run(chk):
         add("R", xs, rng.choice([1, 2]), rng.choice(list(dists)), rng.choice(mcds), model=False)
     b.run()
 
+    # several worker processes with a real-valued custom distance (values must come back from the workers unchanged; list lengths
+    # that leave a remainder for the worker count)
+    from Levenshtein import distance as _levd0
+    for _ in range(4 if not thorough else 20):
+        xs_p = gen.repertoire(rng, rng.choice([11, 23, 50]), minlen=5, maxlen=8, allow_empty=False)
+        ncpu = rng.choice([2, 3, 4])
+        halfd = lambda a_, b_: _levd0(a_, b_) / 2 + 0.25 * abs(len(a_) - len(b_))  # noqa: E731
+        mcd = rng.choice([0.5, 1.0, 1.25])
+        sop = {"op": "brute_self", "xs": xs_p, **search.score_fields("custom", 2, xs_p, halfd, mcd)}
+        b2 = search.Batch(chk, "corr:kdtree-custom-parallel")
+        b2.add("kdtree-custom-parallel|R", lambda xs_p=xs_p, ncpu=ncpu, mcd=mcd: nn.kdtree(xs_p, max_edits=2, custom_distance=halfd, max_custom_distance=mcd, n_cpu=ncpu),
+               None, sop, {"xs": xs_p, "k": 2, "n_cpu": ncpu, "max_custom_distance": mcd, "distance": "lev/2 + |len diff|/4"})
+        b2.run()
+    # more than 46341 sequences with a callable custom distance (position products beyond 2^31): planted pairs at late positions
+    from Levenshtein import distance as _levd
+    nbig = 47011 if not thorough else 60001
+    bxs, bpairs = gen.planted(rng, nbig)
+    half = lambda a_, b_: _levd(a_, b_) / 2 + abs(len(a_) - len(b_))  # noqa: E731
+    for name, fn in (("symdel", lambda: nn.symdel(bxs, max_edits=1, custom_distance=half, max_custom_distance=0.5)),
+                     ("nearest_neighbor", lambda: nn.nearest_neighbor(bxs, max_edits=1, custom_distance=half, max_custom_distance=0.5))):
+        rr = core.call_real(lambda: [(int(a_), int(b_), float(d_)) for a_, b_, d_ in fn()])
+        chk.case(nontrivial_key=("large-custom", name))
+        chk.count("large-collection")
+        if rr[0] != "ok":
+            chk.violation(f"C14|{name}-custom|large|raises-{rr[1]}", f"{name}(custom_distance) raised {rr[1]} on {nbig} sequences", {"n": nbig})
+            continue
+        want = {(i, j, 0.5) for i, j, _d in bpairs} | {(j, i, 0.5) for i, j, _d in bpairs}
+        bad = [t for t in rr[1] if not (0 <= t[0] < nbig and 0 <= t[1] < nbig and t[0] != t[1] and _levd(bxs[t[0]], bxs[t[1]]) <= 1
+                                      and half(bxs[t[0]], bxs[t[1]]) == t[2] <= 0.5)]
+        missing = sorted(want - set(rr[1]))
+        if bad or missing or len(set(rr[1])) != len(rr[1]):
+            ex = (bad or missing or [None])[0]
+            chk.violation(f"C14|{name}-custom|large|{'spurious' if bad else ('missing' if missing else 'repeated')}",
+                          f"{name} with a custom distance on {nbig} sequences: {len(bad)} reported triplets are not pairs inside both radii with their custom "
+                          f"distance, {len(missing)} planted pairs are missing; e.g. {ex}", {"n": nbig, "example": ex, "planted": bpairs[:6]})
+
     # the reported value is the custom distance in every output format (a real-valued distance must not be truncated)
     for xs in corner[1:] + [gen.sub_collection(rng, pool, 8) for _ in range(4)]:
         for dname in ("lev/2", "mix"):
